@@ -281,3 +281,11 @@ Theorem C09_balance_partition : forall (X : Type) (rs : list (X * (mgraph * mgra
      exists G H, In (x, (G, H)) rs /\ ~ ((forall e, el_count e G = el_count e H) /\ total_charge G = total_charge H)).
 Proof. exact @balance_partition_spec. Qed.
 Print Assumptions C09_balance_partition.
+
+(** remap_graph in its list form (round 4): for a duplicate-free list of all nodes it relabels every node to its 1-based
+    position in the list, i.e. it is [relabel (sigma_of l)] - the same relabelling the canonicaliser applies to the reactants *)
+Theorem C09_remap_graph_list : forall (H : mgraph) (l : list N),
+  wf H -> NoDup l -> (forall n, In n l <-> In n (node_ids H)) -> l <> [] ->
+  remap_graph_list H l = Some (relabel (sigma_of l) H).
+Proof. exact remap_graph_list_spec. Qed.
+Print Assumptions C09_remap_graph_list.
